@@ -126,6 +126,34 @@ def upqWrite (nas : Nas) (sedn : Nat) (usetdn : List Row) (pv qup : List Bool)
       .ok (scatter pv upA v)
     else .error .value
 
+/-- the q-set flags of upstream SE `seup` over its a-set: its own, or-ed with those of its own
+upstream SEs (`rec` = `upqsetpv` one level up) when it has any -/
+def upqQup (amask qmask pmask : Nat) (nas : Nas) (rec : Nat → Except Err (List Bool))
+    (seup : Nat) (usetup : List Row) : Except Err (List Bool) := do
+  let qup0 ← qupOwn amask qmask pmask usetup
+  if nas.selist.any (fun r => r.2 = seup) then do
+    let qup2 ← rec seup
+    let pa ← mksetpv (usetup.map (·.2.2)) pmask amask
+    let q2 ← maskSel qup2 pa
+    if q2.length = qup0.length then pure (List.zipWith (· || ·) qup0 q2)
+    else match qup0, q2 with      -- numpy broadcasting of `|`
+      | [a], _ => pure (q2.map (a || ·))
+      | _, [b] => pure (qup0.map (· || b))
+      | _, _ => .error .value
+  else pure qup0
+
+/-- the body of the loop over the rows of `selist` whose downstream SE is `sedn` -/
+def upqStep (amask qmask pmask : Nat) (nas : Nas) (rec : Nat → Except Err (List Bool))
+    (sedn : Nat) (usetdn : List Row) (pv : List Bool) (seup : Nat) : Except Err (List Bool) :=
+  if seup = sedn then pure pv
+  else do
+    let usetup ← lookupD nas.uset seup
+    let dnids ← lookupD nas.dnids seup
+    let maps ← lookupD nas.maps seup
+    let qup ← upqQup amask qmask pmask nas rec seup usetup
+    if qup.any id then upqWrite nas sedn usetdn pv qup dnids maps
+    else pure pv
+
 /-- `upqsetpv(nas, sedn)`; `fuel` bounds the recursion up the superelement tree (the real code
 recurses without a bound; on a tree the depth is below the number of `selist` rows). -/
 def upqsetpv (amask qmask pmask : Nat) (nas : Nas) : Nat → Nat → Except Err (List Bool)
@@ -135,25 +163,7 @@ def upqsetpv (amask qmask pmask : Nat) (nas : Nas) : Nat → Nat → Except Err 
       if ups = [] then .error .value
       else do
         let usetdn ← lookupD nas.uset sedn
-        ups.foldlM (fun pv seup =>
-          if seup = sedn then pure pv
-          else do
-            let usetup ← lookupD nas.uset seup
-            let dnids ← lookupD nas.dnids seup
-            let maps ← lookupD nas.maps seup
-            let qup0 ← qupOwn amask qmask pmask usetup
-            let qup ←
-              if nas.selist.any (fun r => r.2 = seup) then do
-                let qup2 ← upqsetpv amask qmask pmask nas fuel seup
-                let pa ← mksetpv (usetup.map (·.2.2)) pmask amask
-                let q2 ← maskSel qup2 pa
-                if q2.length = qup0.length then pure (List.zipWith (· || ·) qup0 q2)
-                else match qup0, q2 with      -- numpy broadcasting of `|`
-                  | [a], _ => pure (q2.map (a || ·))
-                  | _, [b] => pure (qup0.map (· || b))
-                  | _, _ => .error .value
-              else pure qup0
-            if qup.any id then upqWrite nas sedn usetdn pv qup dnids maps
-            else pure pv) (List.replicate usetdn.length false)
+        ups.foldlM (upqStep amask qmask pmask nas (upqsetpv amask qmask pmask nas fuel) sedn usetdn)
+          (List.replicate usetdn.length false)
 
 end PyYetiVerif.Uset
